@@ -304,6 +304,114 @@ Definition add_filtered (f : forest) (nx : nat) : forest * nat :=
 (* Tree.copy(predicate=) / Tree.filtered: new ids start at 1 *)
 Definition filtered (f : forest) : forest := fst (add_filtered f 1).
 
+(* ------------------------------------------------------------------ *)
+(* (c'') the two scans once more, line by line the same, with every call of the
+   predicate written to a log at the place where the Python loop calls
+   call_predicate(predicate, n).  These are the functions the correspondence
+   evaluates ([run08]); FilterTrace.v proves that forgetting the log gives
+   [ip_node] / [af_node] back and that the log is the spec's call list. *)
+Definition ipres := (rt * bool * bool * bool)%type.
+
+Fixpoint ip_node_tr (s : bool) (t : rt) {struct t} : ipres * list nat :=
+  match t with
+  | T id i ch =>
+      if s then ((t, true, false, true), [])      (* stopped: no call *)
+      else
+      let r :=
+        (fix go (l : list rt) (s : bool) {struct l} : (list rt * list nat * bool * bool) * list nat :=
+           match l with
+           | [] => (([], [], false, s), [])
+           | x :: xs =>
+               let a := ip_node_tr s x in
+               let b := go xs (snd (fst a)) in
+               ((fst (fst (fst (fst a))) :: fst (fst (fst (fst b))),
+                 (if snd (fst (fst (fst a))) then rid x :: snd (fst (fst (fst b))) else snd (fst (fst (fst b)))),
+                 snd (fst (fst a)) || snd (fst (fst b)),
+                 snd (fst b)),
+                snd a ++ snd b)
+           end) ch false in
+      let ch' := remove_ids (snd (fst (fst (fst r)))) (fst (fst (fst (fst r)))) in
+      let mkp := snd (fst (fst r)) in
+      (* res = call_predicate(predicate, n): logged; _visit(n) only in the first two arms *)
+      match v id with
+      | VFalse => ((T id i ch', negb mkp, mkp, snd (fst r)), id :: snd r)
+      | VTrue => ((T id i ch', false, true, snd (fst r)), id :: snd r)
+      | VSelect => ((t, false, true, false), [id])
+      | VSkipKeepSelf => ((T id i [], false, true, false), [id])
+      | VSkip => ((t, true, false, false), [id])
+      | VStop => ((t, true, false, true), [id])
+      end
+  end.
+
+Fixpoint ip_children_tr (s : bool) (l : list rt) {struct l} : (list rt * list nat * bool * bool) * list nat :=
+  match l with
+  | [] => (([], [], false, s), [])
+  | x :: xs =>
+      let a := ip_node_tr s x in
+      let b := ip_children_tr (snd (fst a)) xs in
+      ((fst (fst (fst (fst a))) :: fst (fst (fst (fst b))),
+        (if snd (fst (fst (fst a))) then rid x :: snd (fst (fst (fst b))) else snd (fst (fst (fst b)))),
+        snd (fst (fst a)) || snd (fst (fst b)),
+        snd (fst b)),
+       snd a ++ snd b)
+  end.
+
+(* Node.filter on a child list: (new child list, log of the predicate calls) *)
+Definition filter_inplace_tr (f : forest) : forest * list nat :=
+  let r := ip_children_tr false f in
+  (remove_ids (snd (fst (fst (fst r)))) (fst (fst (fst (fst r)))), snd r).
+
+(* the copying scan: the log is part of the loop state *)
+Fixpoint af_node_tr (t : rt) (sl : afst * list nat) {struct t} : afst * list nat :=
+  match t with
+  | T id i ch =>
+      let st := fst sl in
+      let stk := fst (fst st) in
+      let nx := snd (fst st) in
+      if snd st then sl                             (* StopTraversal propagates: no call *)
+      else
+      let stk1 := Virtual (T id i ch) :: stk in   (* parent_stack.append((False, n)) *)
+      let lg := snd sl ++ [id] in                  (* res = call_predicate(predicate, n) *)
+      let visit :=
+        (fix go (l : list rt) (sl : afst * list nat) {struct l} : afst * list nat :=
+           match l with
+           | [] => sl
+           | x :: xs => go xs (af_node_tr x sl)
+           end) ch in
+      match v id with
+      | VSkipKeepSelf =>
+          let m := materialise stk1 nx in
+          ((pop (add_top (T (snd m) (mk i) []) (fst m)), S (snd m), false), lg)
+      | VStop => ((pop stk1, nx, true), lg)
+      | VSelect =>
+          let m := materialise stk1 nx in
+          let c := copy_f ch (snd m) in
+          ((pop (add_tops (fst c) (fst m)), snd c, false), lg)
+      | VFalse =>
+          let r := visit ((stk1, nx, false), lg) in
+          ((pop (fst (fst (fst r))), snd (fst (fst r)), snd (fst r)), snd r)
+      | VTrue =>
+          let m := materialise stk1 nx in
+          let r := visit ((add_top (T (snd m) (mk i) []) (fst m), S (snd m), false), lg) in
+          ((pop (fst (fst (fst r))), snd (fst (fst r)), snd (fst r)), snd r)
+      | VSkip => ((pop stk1, nx, false), lg)
+      end
+  end.
+
+Fixpoint af_children_tr (l : list rt) (sl : afst * list nat) {struct l} : afst * list nat :=
+  match l with
+  | [] => sl
+  | x :: xs => af_children_tr xs (af_node_tr x sl)
+  end.
+
+(* target._add_filtered(other, predicate): (children received, next allocation index, log) *)
+Definition add_filtered_tr (f : forest) (nx : nat) : forest * nat * list nat :=
+  let r := af_children_tr f (([Existing 0 (I 0 0 0 false [] (DInt 0) None []) []], nx, false), []) in
+  match fst (fst (fst r)) with
+  | [Existing _ _ rc] => (rev rc, snd (fst (fst r)), snd r)
+  | _ => ([], snd (fst (fst r)), snd r)
+  end.
+
 End WithPredicate.
 
 (* the public entry points with an optional predicate:
